@@ -145,41 +145,6 @@ void h_advance_step(void)
 }
 
 /* ================================================================================================================== */
-/* 3b. schedule() / reschedule() under the lock: the delay handed to insertEntry vs. the wheel's time base.
- *  currentTick is the index of the level-0 bucket that becomes current at time L = _lastAdvanceTime; the next advance() at time a
- *  performs max(1, floor((a - L)/tick)) tick steps (A2) and a level-0 entry at offset k is released by step k+1 WITHOUT a deadline
- *  test (R1, W1). So an entry with offset k = floor(x/tick) can be released as early as L + (k+1)*tick; "at most one tick early"
- *  (deadline - tick <= L + (k+1)*tick for every tick/remainder) needs  x >= deadline - L - tick :  the delay used for the bucket
- *  computation must be measured from L, not from the (possibly much later) moment schedule() is called.                         */
-#define SCHED_STATE \
-  TimingWheel W; TimerEntry e; int64_t delay = nondet_i64(); \
-  IORA_TRUE = 1; G_ins_calls = 0; G_alloc_entry = &e; G_wheel_locks = 0; \
-  __CPROVER_assume(W._tickDuration > 0 && W._tickDuration <= ((int64_t)1 << 40) && W._lastAdvanceTime > 0 && W._lastAdvanceTime <= ((int64_t)1 << 61)); /* started: start() stored Clock::now() */ \
-  __CPROVER_assume(delay >= -((int64_t)1 << 40) && delay <= ((int64_t)1 << 60)); \
-  G_clock_floor = W._lastAdvanceTime;   /* steady clock: schedule() reads it after the last advance() did */ \
-  const int64_t L = W._lastAdvanceTime, tick = W._tickDuration;
-
-void h_schedule(void)
-{
-  SCHED_STATE
-  uint64_t id = nondet_u64(); void *cb = (void *)&W;
-  TimingWheel_scheduleLocked(&W, id, delay, cb);
-  IORA_CANARY("h_schedule: returns");
-  /* Q1 */ __CPROVER_assert(e.id == id && e.callback == cb && e.deadline - delay >= L, "Q1 the entry carries id, handler and deadline = clock + delay");
-  /* Q2 */ __CPROVER_assert(G_ins_calls == 1 && G_ins_e == &e && G_map_key == id && G_map_slot == &e, "Q2 the entry is inserted once and registered under its id (cancel/reschedule find it)");
-  /* Q3 */ __CPROVER_assert(G_ins_delay >= e.deadline - L - tick, "Q3 not early: the delay used for the bucket computation is measured from the wheel's time base (>= deadline - lastAdvanceTime - tick)");
-}
-
-void h_reschedule(void)
-{
-  SCHED_STATE
-  bool r = TimingWheel_rescheduleLocked(&W, &e, delay);
-  IORA_CANARY("h_reschedule: returns");
-  /* Q4 */ __CPROVER_assert(r && G_ins_calls == 1 && G_ins_e == &e && e.deadline - delay >= L, "Q4 reschedule re-inserts the entry once with deadline = clock + newDelay and reports success");
-  /* Q5 */ __CPROVER_assert(G_ins_delay >= e.deadline - L - tick, "Q5 not early: the delay used for the bucket computation is measured from the wheel's time base (>= deadline - lastAdvanceTime - tick)");
-}
-
-/* ================================================================================================================== */
 /* 4. bounded stand-in: whole advance() (collectFromBucket + cascadeDown + insertEntry + list ops, all extracted text) on a
  *    2-level wheel of 4 buckets, tick 10, with up to 3 entries placed by the real insertEntry                            */
 #define NB 4
@@ -267,16 +232,4 @@ void h_search(void)
   b_check(N, 1000 + EL);
 }
 
-/* SEARCH for Q3: how far the tick thread is behind (STALL = clock - lastAdvanceTime) and the delay, tick 10 */
-void h_search_sched(void)
-{
-  int64_t STALL = nondet_i64(), DELAY = nondet_i64();
-  __CPROVER_assume(STALL >= 100 && STALL <= 200 && DELAY >= 0 && DELAY <= 150);    /* a clear witness: the tick thread is >= 10 ticks behind */
-  static TimingWheel W; static WheelLevel L0; static Bucket BK[16]; TimerEntry e; IORA_TRUE = 1; G_alloc_entry = &e; G_divs = 0; G_iter_budget = 1000;
-  W._tickDuration = 10; W._ticksPerWheel = 16; W._tickMask = 15; W._numWheels = 1; W._wheels = &L0; L0.buckets = BK; L0.currentTick = 0;
-  W._lastAdvanceTime = 1000; G_clock_floor = 1000 + STALL;
-  TimingWheel_scheduleLocked(&W, 1, DELAY, (void *)&W);
-  __CPROVER_assume(e.deadline == 1000 + STALL + DELAY);       /* the clock read is exactly lastAdvanceTime + STALL */
-  __CPROVER_assert(G_a0 >= e.deadline - 1000 - 10, "Q3 not early: the delay used for the bucket computation is measured from the wheel's time base (>= deadline - lastAdvanceTime - tick)");
-}
 #endif
